@@ -921,6 +921,38 @@ class Interp(seq_detached.DetachedMixin, S.SeqRun):
                 self.op_r_attr_of(o, eo.attrs[r.below(len(eo.attrs))])
         return st
 
+    def op_cycle(self, a, b, c):
+        """new objects that refer to each other in a cycle (or one that refers to itself), optionally after a
+        pending removal of a stored many-to-many link, then a flush: the cycle cannot be ordered, the flush has to
+        raise and nothing of the session may reach the database (C16, second clause)"""
+        r = Rng(0, 'cycle', a, b, c)
+        e = self.schema.by_name['Person']
+        if r.chance(0.6):
+            # a stored many-to-many link is removed first: its DELETE is the first statement of the flush
+            owners = [o for o in self.live_sorted() if self.schema.by_name[o.ent].sets()]
+            cands = []
+            for i, o in enumerate(owners):
+                for j, sa in enumerate(self.schema.by_name[o.ent].sets()):
+                    if sa.reverse.is_set and any(self.view.objs[m].stored for m in self.view.partners(sa, o.mid)) and o.stored:
+                        cands.append((i, j))
+            if cands:
+                i, j = cands[r.below(len(cands))]
+                self.op_coll('remove', i, j, 1 + 4 * r.below(200))
+        mids = []
+        for _ in range(1 if r.chance(0.3) else 2):
+            kw = self.scalar_kwargs(e, r.below(1000), r.below(1000))
+            if self._create(e, kw, {}, {}) != 'ok':
+                return None
+            mids.append(self.last_created)
+        ra = e.by_name['boss']
+        ring = mids + [mids[0]]
+        for x, y in zip(ring, ring[1:]):
+            self.modify('rel Person#%d.boss=#%d' % (x, y), lambda x=x, y=y: setattr(self.handle(x), 'boss', self.handle(y)),
+                        lambda v, x=x, y=y: v.set_to_one(x, ra, y), mids=[x, y])
+        self.probe('cycle_of_new_objects_built')
+        self.op_flush()
+        return 'ok'
+
     def op_jedit(self, a, b, c):
         """a change made in place inside a tracked Json value (value['k'] = n, value['l'].append(n), del value['k']):
         it is a modification of the object like an assignment"""
@@ -1553,6 +1585,8 @@ class Interp(seq_detached.DetachedMixin, S.SeqRun):
         """flush / commit raised: classify (C16) and remember that nothing of this transaction may persist"""
         self.probe('flush_failed')
         self.probe('flush_failed_' + type(e).__name__)
+        if any(isinstance(x, core.UnresolvableCyclicDependency) for x in _chain(e)):
+            self.cycle_error_seen = True       # C16, second clause: "... and the session's writes are not committed"
         self.hooks_check_window(False, where)
         self.hook_edits = []
         self.hook_created = []
@@ -1755,6 +1789,7 @@ class Interp(seq_detached.DetachedMixin, S.SeqRun):
         self.blind = False
         self.stop_session = False
         self.cycle_flushed = False
+        self.cycle_error_seen = False
         self.released_keys = set()
         self.taken_keys = set()
         opts = dict(sess.get('opts') or {})
@@ -1836,7 +1871,11 @@ class Interp(seq_detached.DetachedMixin, S.SeqRun):
             how = 'failed'
             self.probe('session_poisoned')
             self.discard_session_state('poisoned')
-            self.compare_db(self.committed, 'C14' if False else 'C09', 'failed-session-changes-visible', 'session-failed')
+            same = self.compare_db(self.committed, 'C09', 'failed-session-changes-visible', 'session-failed')
+            if not same and getattr(self, 'cycle_error_seen', False):
+                self.viol('C16', 'cycle-error-left-writes', 'session-failed',
+                          'the flush raised UnresolvableCyclicDependency, yet part of what the failed session wrote is in '
+                          'the database')
         except Exception as e:
             # the commit at session exit failed
             how = 'failed'
@@ -1918,6 +1957,9 @@ class Interp(seq_detached.DetachedMixin, S.SeqRun):
                 self.op_bulk_del(a, b, c)
         elif name == 'jedit':
             self.op_jedit(a, b, c)
+        elif name == 'cycle':
+            if not self.knobs.get('hook_mode'):
+                self.op_cycle(a, b, c)
         elif name == 'partial':
             if self.knobs.get('hook_mode') not in ('modify', 'create', 'link', 'after_edit'):
                 self.op_partial(a, b, c)
